@@ -91,6 +91,32 @@ def run(ctx):
     ok = src(tl.ast).replace(" ", "") == "i<self._len"
     ctx.ob("C11.TAIL", ic, "the tail loop runs while the cursor is below the published length", ok, construct="tail loop test: %s" % src(tl.ast))
 
+    # C11.DRAINED - once the shared generator is exhausted no further element is taken from the cache by the filling loop
+    handlers = [n for n in cfg.live_nodes() if n.kind == "handler" and n.ast.type is not None and "StopIteration" in src(n.ast.type)]
+    fill_yields = [n for n in cfg.live_nodes() if n.kind == "stmt" and isinstance(n.ast, ast.Expr) and isinstance(n.ast.value, ast.Yield)
+                   and n not in cfg.reach([tl], include_start=False) or False]
+    fill_yields = [n for n in cfg.live_nodes() if n.kind == "stmt" and isinstance(n.ast, ast.Expr) and isinstance(n.ast.value, ast.Yield) and cfg.path_avoiding(n, [tl], avoid_nodes=[]) is not None
+                   and n not in body_y]
+    bad_h = None
+    for h in handlers:
+        for y in fill_yields:
+            pth = cfg.path_avoiding(h, [y], avoid_nodes=[tl])
+            if pth is not None:
+                bad_h = (h, y, pth)
+    ctx.ob("C11.DRAINED", ic, "after the shared generator raised StopIteration the filling loop is left before its `yield cache[i]` (the element does not exist)",
+           bool(handlers) and bad_h is None, construct="StopIteration handler leaves the filling loop",
+           detail="" if bad_h is None else "path from the handler to `%s`: %s" % (stmt_text(bad_h[1]), " -> ".join("L%d" % x.lineno for x in bad_h[2] if x.lineno)),
+           analysis="CFG path query")
+    # C11.OWNLOCK - the cache lock belongs to the instance
+    init = prog.method(base.qualname, "__init__", "C11.OWNLOCK")
+    from ..lock import find_locks
+    locks = [(c_, a_, f_, n_) for c_, a_, f_, n_ in find_locks(prog) if c_ is not None and c_.qualname == base.qualname]
+    per_inst = [1 for c_, a_, f_, n_ in locks if f_.qualname == init.qualname]
+    class_level = [k for k, v in base.assigns.items() if isinstance(v, ast.Call) and src(v.func).split(".")[-1] in ("allocate_lock", "Lock", "RLock")]
+    ctx.ob("C11.OWNLOCK", base, "every rule / set has its own cache lock, created in __init__ (a lock shared by all instances would be taken twice when a cached set "
+           "pulls from a cached rule)", bool(per_inst) and not class_level, construct="self._cache_lock created per instance",
+           detail="" if (per_inst and not class_level) else "class-level lock(s): %s; created in __init__: %d" % (class_level, len(per_inst)), analysis="who-creates the lock")
+
     # C11.LEN - the tail loop of cached iterators reads _len, which every generator exit must have published
     check_len_published(ctx, "C11.LEN")
 
